@@ -227,6 +227,23 @@ def run(ctx, res):
                 kind = "iterator" if src[0] == "call" and "next" in (M.callee_name(src[2]) or "") else None
         elif r[0] == "call" and (M.callee_name(r[2]) or "").endswith("str>::contains"):
             kind = "name-filter"
+            # both sides of the comparison must have gone through the same transformation (none, today): lower-casing
+            # only the test's name makes every filter that contains a capital letter match nothing
+            def transforms(op):
+                out = []
+                rr = g.root_of(op, through_named=True)
+                for _ in range(6):
+                    if rr[0] != "call" or not rr[2]["args"]:
+                        break
+                    nm = (M.callee_name(rr[2]) or "").split("::")[-1]
+                    if nm not in ("deref", "as_str", "as_ref", "borrow", "clone", "to_owned", "to_string", "unwrap_or_default", "cloned"):
+                        out.append(nm)
+                    rr = g.root_of(rr[2]["args"][0], through_named=True)
+                return out
+            ta, tb = transforms(r[2]["args"][0]), transforms(r[2]["args"][1]) if len(r[2]["args"]) > 1 else []
+            if ta != tb:
+                kind = None
+                return (kind, "name %s the filter %s (the two sides are transformed differently)" % (".".join(ta) or "as written", ".".join(tb) or "as written"), bi)
         return (kind, describe_operand(g, t["discr"]), bi)
     # iterator form: the selected vector is `all.iter().filter(|item| ..).cloned().collect()`; the closure is the condition
     from .. import panicinv as PI
